@@ -78,6 +78,7 @@ class Frame:
         self.consts = dict(consts)       # local name -> python constant (e.g. EOS_TTYPE tuple source)
         self.events = []                 # (kind, guard) in program order: 'yield', 'append', 'reset'
         self.append_pred = None
+        self.locals = {}                 # local name -> z3 term (scalar value computed from the state)
         self.guard = z3.BoolVal(True)
 
     # ---- token predicates ----------------------------------------------------------------
@@ -90,7 +91,7 @@ class Frame:
 
     def is_tok(self, node):
         names = self.m.names_in(node)
-        if 'self' in names:
+        if 'self' in names or (names & set(self.locals)):
             return False
         allowed = self.tokvars() | set(self.m.globals) | set(dir(builtins))
         if not names <= allowed:
@@ -112,6 +113,8 @@ class Frame:
             if node.attr not in self.st:
                 raise Unsupported(f'read of unset self.{node.attr}')
             return self.st[node.attr]
+        if isinstance(node, ast.Name) and node.id in self.locals:
+            return self.locals[node.id]
         if isinstance(node, (ast.BoolOp, ast.Compare, ast.Call, ast.UnaryOp, ast.Attribute, ast.Subscript)) and self.is_tok(node):
             return self.tok_pred(node)
         if isinstance(node, ast.BoolOp):
@@ -212,10 +215,11 @@ class Frame:
         for p, a in zip(params, args):
             if not (isinstance(a, ast.Name) and a.id == p and p in TOKEN_NAMES):
                 raise Unsupported(f'call {name}: argument {ast.unparse(a)} is not the current token')
-        saved_defs, saved_consts = dict(self.tok_defs), dict(self.consts)
+        saved_defs, saved_consts, saved_locals = dict(self.tok_defs), dict(self.consts), dict(self.locals)
+        self.locals = {}
         rets = []
         self.block(fn.body, guard, rets)
-        self.tok_defs, self.consts = saved_defs, saved_consts
+        self.tok_defs, self.consts, self.locals = saved_defs, saved_consts, saved_locals
         if not rets:
             return None
         # merge: first matching return wins (guards are disjoint by construction)
@@ -264,6 +268,15 @@ class Frame:
                 if not self.m.uses_self(s.value) and not (self.m.names_in(s.value) & self.tokvars()):
                     self.consts[t.id] = ast.unparse(s.value)      # e.g. EOS_TTYPE = T.Whitespace, T.Comment.Single
                     return guard
+                # a scalar local computed from the state (and possibly the token)
+                val = self.ev(s.value)
+                if isinstance(val, tuple):
+                    raise Unsupported('token list stored in a local')
+                old = self.locals.get(t.id)
+                if old is not None and z3.is_bool(old) == z3.is_bool(val):
+                    val = z3.If(guard, val, old)
+                self.locals[t.id] = val
+                return guard
             raise Unsupported(f'assignment {ast.unparse(s)}')
         if isinstance(s, ast.AugAssign):
             t = s.target
